@@ -22,7 +22,7 @@ value and leaves exactly `rest`, for every `rest`.
 NOT proved here (differential only, see manifest): typed `getitem` after `parse (repr u)` for *int-valued*
 parameters (needs `int(str(n)) = n` for the modelled `int()`; model and tie exist, the proof does not).
 (The other direction of the calendar bijection, `civilOfDays (daysOfCivil y m d) = (y, m, d)`, IS proved now:
-`civil_roundtrip_inverse`, `civil_date_of_day_unique`.)
+`civil_roundtrip_inverse`, `civil_date_of_day_unique`, and with it `datetime_to_unix_and_back`.)
 -/
 namespace Nx.C15
 open Nx Nx.Nex
@@ -223,6 +223,16 @@ theorem civil_date_of_day_unique (y m d y' m' d' : Nat)
     (hy' : 1 ≤ y') (hm1' : 1 ≤ m') (hm2' : m' ≤ 12) (hd1' : 1 ≤ d') (hd2' : d' ≤ daysInMonth y' m')
     (h : daysOfCivil y m d = daysOfCivil y' m' d') : (y, m, d) = (y', m', d') := by
   rw [← civilOfDays_daysOfCivil y m d hy hm1 hm2 hd1 hd2, h, civilOfDays_daysOfCivil y' m' d' hy' hm1' hm2' hd1' hd2']
+
+open DateTime in
+/-- DateTime → Unix time → DateTime: whenever `timestamp()` succeeds in a zone `off` seconds east of UTC,
+`fromtimestamp` of the result succeeds and returns the very same value — no further hypothesis. (The direction
+Unix → DateTime → Unix is `datetime_unix_partial` below, which needs one and has a genuine counterexample.) -/
+theorem datetime_to_unix_and_back (off : Int) (v : Nat) (t : Int) (h : timestamp off v = .ok t) :
+    fromTimestamp off t = .ok v := fromTimestamp_timestamp off v t h
+
+/-- the hypothesis is satisfiable: 2024-02-29T12:34:56 nine hours east of UTC -/
+example : DateTime.timestamp 32400 (DateTime.make ⟨2024, 2, 29, 12, 34, 56⟩) = .ok 1709177696 := by decide
 
 /-- the hypotheses are satisfiable at the corners: 29 February of a leap year, 31 December 9999, 1 January of year 1 -/
 example : DateTime.civilOfDays (DateTime.daysOfCivil 2024 2 29) = (2024, 2, 29) ∧ (29 : Nat) ≤ DateTime.daysInMonth 2024 2 ∧
